@@ -302,7 +302,7 @@ def run(ctx):
     if quick:
         ksizes, knts, ktg, rep, dts = [1, 2, 3, 5, 8, 17, 40], [1, 2, 3, 8, 16], [1, 3, -1, -4], 2, ["float64", "complex128"]
     else:
-        ksizes, knts, ktg, rep, dts = [1, 2, 3, 4, 5, 7, 8, 9, 16, 17, 33, 64, 100, 257], [1, 2, 3, 4, 5, 8, 12, 16], [1, 2, 7, 64, -1, -3, -16, -1024], 4, ["float32", "float64", "complex64", "complex128"]
+        ksizes, knts, ktg, rep, dts = [1, 2, 3, 4, 5, 7, 9, 16, 17, 33, 100, 257], [1, 2, 3, 5, 8, 16], [1, 2, 7, -1, -3, -16, -1024], 3, ["float32", "float64", "complex128"]
     krecs = observe_kernels(rng, ksizes, knts, ktg, rep, dts)
     krecs += observe_public_defaults(rng)
     krecs += observe_reduce(rng, range(1, 10 if quick else 18), [1, 2, 3, 4, 8] if quick else [1, 2, 3, 4, 5, 8, 16])
